@@ -38,6 +38,8 @@ type Node struct {
 	Shorthand bool     `json:"shorthand,omitempty"` // case written without a 'case' statement
 	MapList   bool     `json:"maplist,omitempty"`   // struct stores: back this list by a Go map
 	ValueList bool     `json:"valuelist,omitempty"` // struct-backed Reflect: a slice of struct values ([]T), not pointers
+	When      string   `json:"when,omitempty"`      // when expression (only generated for the concurrent simulator's shared schema)
+	ConvSlice bool     `json:"convslice,omitempty"` // struct-backed Reflect: leaf-list field of a convertible, not identical, element type ([]int for int32)
 	Module    string   `json:"module,omitempty"`    // defining module when not the main one ("g")
 	Bits      []string `json:"bits,omitempty"`
 	Rich      bool     `json:"rich,omitempty"` // module: emit the companion module g (identities, groupings)
@@ -334,6 +336,10 @@ func (n *Node) yang(b *strings.Builder, d int) {
 			ind(b, d+1)
 			fmt.Fprintf(b, "default \"%s\";\n", n.Default)
 		}
+		if n.When != "" {
+			ind(b, d+1)
+			fmt.Fprintf(b, "when \"%s\";\n", n.When)
+		}
 	}
 	for _, c := range n.Children {
 		c.yang(b, d+1)
@@ -360,6 +366,7 @@ type Caps struct {
 	Int64        bool
 	NoEnums      bool // struct-backed Reflect cannot read an unset string-typed enum field
 	ValueLists   bool // some slice lists hold struct values instead of pointers
+	ConvSlices   bool // some int32 leaf-lists are []int64 fields
 }
 
 func FullCaps() Caps {
@@ -424,7 +431,11 @@ func (g *gen) leaf(key bool, keyInt bool) *Node {
 
 func (g *gen) leafList() *Node {
 	g.n++
-	return &Node{Kind: LeafList, Name: g.name("ll"), Type: g.r.Pick([]string{"string", "int32"})}
+	ll := &Node{Kind: LeafList, Name: g.name("ll"), Type: g.r.Pick([]string{"string", "int32"})}
+	if g.caps.ConvSlices && ll.Type == "int32" && g.r.Chance(1, 2) {
+		ll.ConvSlice = true
+	}
+	return ll
 }
 
 func (g *gen) container(depth int, inList bool) *Node {
@@ -462,7 +473,31 @@ func (g *gen) choice(depth int, inList bool) *Node {
 	for i := 0; i < nc; i++ {
 		cs := &Node{Kind: Case, Name: g.name("cs")}
 		// what the case holds
-		switch g.r.Intn(6) {
+		switch g.r.Intn(9) {
+		case 6, 7, 8:
+			// 2-4 members of mixed kinds in random order (a container or list that is
+			// absent may precede a member that is present)
+			n := g.r.Range(2, 4)
+			for k := 0; k < n; k++ {
+				switch g.r.Intn(4) {
+				case 0:
+					cs.Children = append(cs.Children, g.container(depth+1, inList))
+				case 1:
+					if !inList || g.caps.ListsInLists {
+						cs.Children = append(cs.Children, g.list(depth+1))
+					} else {
+						cs.Children = append(cs.Children, g.container(depth+1, inList))
+					}
+				case 2:
+					if g.caps.LeafLists {
+						cs.Children = append(cs.Children, g.leafList())
+					} else {
+						cs.Children = append(cs.Children, g.leaf(false, false))
+					}
+				default:
+					cs.Children = append(cs.Children, g.leaf(false, false))
+				}
+			}
 		case 0, 1:
 			cs.Children = append(cs.Children, g.leaf(false, false))
 			if g.r.Chance(1, 2) {
@@ -581,4 +616,32 @@ func Generate(r *kit.Rng, caps Caps, name string, mustChoice, mustList bool) *No
 		m.Link()
 		return m
 	}
+}
+
+// AddWhens puts a when statement on some leaves, referring to an earlier
+// sibling leaf (used by the concurrent simulator, whose oracles need no model
+// of visibility).
+func AddWhens(r *kit.Rng, m *Node) {
+	m.Walk(func(p *Node) {
+		if p.Kind != Container && p.Kind != List && p.Kind != Module {
+			return
+		}
+		var prev *Node
+		for _, c := range p.Children {
+			if c.Kind != Leaf {
+				continue
+			}
+			if prev != nil && !c.IsKey() && c.Default == "" && r.Chance(1, 3) {
+				lit := "'zz'"
+				if prev.Type == "int32" || prev.Type == "int64" {
+					lit = "7"
+				}
+				op := r.Pick([]string{"!=", "=", "!="})
+				if prev.Type == "string" || prev.Type == "int32" || prev.Type == "int64" {
+					c.When = prev.Name + op + lit
+				}
+			}
+			prev = c
+		}
+	})
 }
